@@ -111,7 +111,8 @@ fn poly_ctor(c: &Value) -> Polytope {
     let q = c.get("q").and_then(|v| v.as_f64()).unwrap_or(1.0);
     match c["ctor"].as_str().unwrap() {
         "rows" => {
-            let p = poly_from(&c["p"]);
+            let mut p = poly_from(&c["p"]);
+            if c.get("negzero").and_then(|v| v.as_bool()).unwrap_or(false) { p.bias.mapv_inplace(|x| if x == 0.0 { -0.0 } else { x }); }
             if c.get("tiny").and_then(|v| v.as_bool()).unwrap_or(false) { Polytope::from_mats(&p.mat * TINY, &p.bias * TINY) } else { p }
         }
         "hypercube" => Polytope::hypercube(us(&c["dim"]), c["r"].as_f64().unwrap() / q),
